@@ -341,18 +341,20 @@ def pool_pragmas(db):
 # ---------------------------------------------------------------------------------------------- mode: sessions
 
 def run_session_case(case, workdir):
-    """case: {shape, start: pooled|none, ops: [[op, catch, arg]], faults: [k], sessions: optional list of further (shape, ops)}"""
+    """case: {shape, start: pooled|none|fresh, ops: [[op, catch, arg]], faults: [k], more: further [shape, ops] sessions}
+    start = pooled: the connection made by Database.bind() sits in this thread's pool; none: this thread connected before and
+    disconnected; fresh: the sessions run in a new thread, whose pool has never connected."""
     from pony.orm import core
     path = os.path.join(workdir, 'c%d.sqlite' % case.get('n', 0))
     if os.path.exists(path): os.remove(path)
     CTL.reset()
     db, T = make_db(path)
     CTL.provider = db.provider
-    if case.get('start', 'pooled') == 'none':
+    start = case.get('start', 'pooled')
+    if start in ('none', 'fresh'):
         db.disconnect()
         CTL.cons.clear(); CTL.next_con = 0
     else:
-        # the connection made by bind() sits in the pool: it is connection 0
         assert db.provider.pool.con is not None and db.provider.pool.con.cid == 0
         CTL.next_con = 1
     rows0 = read_rows(path)
@@ -360,31 +362,61 @@ def run_session_case(case, workdir):
     CTL.n = 0
     out = {'sessions': []}
     sessions = [[case['shape'], case['ops']]] + list(case.get('more', []))
-    CTL.armed = True
+
+    def in_thread():
+        CTL.armed = True
+        try:
+            for shape, ops in sessions:
+                exc, outcomes = run_body(db, T, shape, ops)
+                out['sessions'].append({'exc': exc, 'outcomes': outcomes, 'lock_after': CTL.lock_state(), 'calls': CTL.n})
+        finally:
+            CTL.armed = False
+        out['after'] = observe_after(db)
+        out['pragmas'] = pool_pragmas(db)
+        out['hung'] = bool(out['after']['lock'] or not out['after']['db2cache_empty'])
+        if out['hung']:
+            out['follow_same'] = 'skipped'
+        else:
+            out['follow_same'] = follow_up(db, T, same_thread=True, timeout=case.get('timeout', 10.0))
+        # tidy this thread
+        try:
+            core.local.db2cache.clear(); core.local.db_context_counter = 0; core.local.db_session = None
+            db.provider.pool.disconnect()
+        except Exception:
+            pass
+
+    # watchdog: a session that deadlocks on the provider lock (it can only be this thread's own earlier acquire) is reported,
+    # and the lock is released from outside so that the process can go on
+    finished = threading.Event()
+    dead = {}
+    def watchdog():
+        if finished.wait(case.get('timeout', 8.0)): return
+        dead['deadlock'] = True
+        while not finished.wait(0.2):
+            for lk in (db.provider.transaction_lock, db.provider.pre_transaction_lock):
+                try: lk.release()
+                except Exception: pass
+    wd = threading.Thread(target=watchdog, daemon=True); wd.start()
     try:
-        for shape, ops in sessions:
-            exc, outcomes = run_body(db, T, shape, ops)
-            out['sessions'].append({'exc': exc, 'outcomes': outcomes, 'lock_after': CTL.lock_state(), 'calls': CTL.n})
+        if start == 'fresh':
+            th = threading.Thread(target=in_thread, name='fresh', daemon=True)
+            th.start(); th.join(case.get('timeout', 8.0) + 20.0)
+            if th.is_alive():
+                return {'harness_error': 'session thread did not finish (deadlock)', 'deadlock': True}
+        else:
+            in_thread()
     finally:
-        CTL.armed = False
+        finished.set()
+    if dead:
+        for w in CTL.cons.values():
+            try: w.real.close()
+            except Exception: pass
+        return {'harness_error': 'the session blocked on the provider lock for more than %.0f s (deadlock); trace so far: %r' % (case.get('timeout', 8.0), [t[:4] for t in CTL.trace][-8:]), 'deadlock': True}
     out['trace'] = [t[:6] for t in CTL.trace]
     out['statements'] = {str(cid): w.statements for cid, w in sorted(CTL.cons.items())}
-    out['after'] = observe_after(db)
-    out['pragmas'] = pool_pragmas(db)
     out['rows_after'] = read_rows(path)
     out['rows_before'] = rows0
-    if out['after']['lock'] or not out['after']['db2cache_empty']:
-        out['follow_other'] = follow_up(db, T, same_thread=False, timeout=case.get('timeout', 3.0))
-        out['follow_same'] = 'skipped'
-    else:
-        out['follow_other'] = follow_up(db, T, same_thread=False, timeout=case.get('timeout', 10.0))
-        out['follow_same'] = follow_up(db, T, same_thread=True, timeout=case.get('timeout', 10.0))
-    # tidy: drop caches of this thread so that the next case starts clean
-    try:
-        core.local.db2cache.clear(); core.local.db_context_counter = 0; core.local.db_session = None
-        db.provider.pool.disconnect()
-    except Exception:
-        pass
+    out['follow_other'] = follow_up(db, T, same_thread=False, timeout=3.0 if out.get('hung') else case.get('timeout', 10.0))
     for w in CTL.cons.values():
         try: w.real.close()
         except Exception: pass
@@ -622,6 +654,7 @@ def sql_text_cases(payload):
 
 def main():
     payload = json.load(sys.stdin)
+    kill = threading.Timer(float(payload.get('total_timeout', 1200)), lambda: os._exit(3)); kill.daemon = True; kill.start()
     mode = payload['mode']
     res = None
     if mode == 'crash_child':
@@ -635,11 +668,21 @@ def main():
         workdir = tempfile.mkdtemp(prefix='c19-', dir=payload.get('tmp') or None)
         try:
             outs = []
+            slow = 0
             for n, case in enumerate(payload['cases']):
                 case['n'] = n
+                if slow >= int(payload.get('max_hung', 12)):
+                    outs.append({'harness_error': 'skipped: too many hung sessions before this case', 'skipped': True})
+                    continue
                 try:
-                    if mode == 'sessions': outs.append(run_session_case(case, workdir))
-                    elif mode == 'threads': outs.append(run_thread_case(case, workdir))
+                    if mode == 'sessions':
+                        o = run_session_case(case, workdir)
+                        if o.get('deadlock') or o.get('hung') or o.get('follow_other') == 'timeout': slow += 1
+                        outs.append(o)
+                    elif mode == 'threads':
+                        o = run_thread_case(case, workdir)
+                        if o.get('failed'): slow += 1
+                        outs.append(o)
                     else: raise ValueError(mode)
                 except Exception as e:
                     outs.append({'harness_error': '%s: %s\n%s' % (type(e).__name__, e, traceback.format_exc()[-1500:])})
